@@ -185,7 +185,14 @@ def equation_case(draw):
     else:
         lookup = draw(st.dictionaries(st.sampled_from(pool), st.sampled_from(FRESH + pool), min_size=1, max_size=4))
     vals = {n: draw(st.integers(1, 40)) / 4.0 for n in pool}
-    return {'lead': lead, 'terms': terms, 'lookup': lookup, 'vals': vals, 'via': draw(st.sampled_from(['equation', 'block', 'block-shared']))}
+    # optionally the SAME equation object is renamed a second time (local names -> aliases -> final names): the keys of
+    # the second map are names the first one introduced
+    second = None
+    if draw(st.sampled_from([True, False, False])):
+        imgs = sorted(set(lookup.values()))
+        second = {n: 'final_' + n for n in imgs if draw(st.sampled_from([True, True, False]))}
+    return {'lead': lead, 'terms': terms, 'lookup': lookup, 'vals': vals, 'second': second,
+            'via': draw(st.sampled_from(['equation', 'block', 'block-shared']))}
 
 
 def run_equation(spec):
@@ -246,6 +253,18 @@ def run_equation(spec):
     if got_names != want_names:
         raise Violation('C13/equation-level-rename', 'equation %r under %r became %r: names %r, expected %r' %
                         (before, lookup, after, got_names, want_names))
+    if spec.get('second'):
+        mid = eq.RHS()
+        if spec['via'] == 'block':
+            blk.ReplaceTokensFromLookup(spec['second'])
+        else:
+            eq.ReplaceTokensFromLookup(spec['second'])
+        got2 = expr.names(eq.RHS())
+        want2 = [spec['second'].get(n, n) for n in expr.names(mid)]
+        if got2 != want2:
+            raise Violation('C13/equation-level-rename', 'equation %r, renamed once before, under the second map %r became %r: '
+                                                         'expected names %r' % (mid, spec['second'], eq.RHS(), want2))
+        return {'nontrivial': len(set(expr.names(mid)) & set(spec['second'])) >= 1, 'labels': ['via:' + spec['via'], 'renamed-twice']}
     distinct = sorted(set(names_before))
     images = [lookup.get(n, n) for n in distinct]
     if len(set(images)) == len(images):
